@@ -734,3 +734,13 @@ Fixpoint explore (depth : nat) (s : state) : list (state * nat * label) :=
                       end) (all_labels s)
           end
   end.
+
+(* number of steps of an execution that are not no-ops *)
+Fixpoint count_real (s : state) (ls : list label) : nat :=
+  match ls with
+  | [] => 0
+  | l :: r => match step s l with
+              | Some s' => (if noop_b s l then 0 else 1) + count_real s' r
+              | None => 0
+              end
+  end.
